@@ -20,11 +20,15 @@ def run(pid, tier):
 
     h = load(pid)
     h.tier = tier
-    if getattr(h, "regime", "A") == "A":
-        total, cov, wall = engine.explore(h, tier)
-    else:
-        total, cov, wall = engine.run_lattice(h, tier)
-    return engine.finish(h, tier, total, cov, wall)
+    engine.run_tmp()  # before any worker is forked
+    try:
+        if getattr(h, "regime", "A") == "A":
+            total, cov, wall = engine.explore(h, tier)
+        else:
+            total, cov, wall = engine.run_lattice(h, tier)
+        return engine.finish(h, tier, total, cov, wall)
+    finally:
+        engine.remove_run_tmp()
 
 
 def replay(path):
@@ -32,7 +36,13 @@ def replay(path):
         rec = json.load(f)
     h = load(rec["property"])
     h.tier = "thorough"  # a replay runs the complete case, whatever the tier that found it thinned out
-    got = h.replay(rec["case"])
+    from rtmc import engine
+
+    engine.run_tmp()
+    try:
+        got = h.replay(rec["case"])
+    finally:
+        engine.remove_run_tmp()
     print(f"replay of {path}\n  property={rec['property']} clause={rec['clause']}")
     print(f"  case={json.dumps(rec['case'])[:2000]}")
     for clause, detail in got:
